@@ -121,6 +121,9 @@ func (g *shapeGen) genStruct(name string, depthLeft int, minFields int) {
 		switch kind {
 		case "plain":
 			f = Field{Name: g.fieldName(used), Kind: "plain", Type: g.plainType()}
+			if rapid.IntRange(0, 11).Draw(g.t, "blank") == 0 {
+				f.Name = "_" // a blank field: listed by hseq like any other, not addressable by a selector
+			}
 		case "embedns":
 			e := embedNS[rapid.IntRange(0, len(embedNS)-1).Draw(g.t, "ens")]
 			if used[e[1]] {
@@ -241,6 +244,9 @@ func GenRequests(t *rapid.T, sh *Shape) []Request {
 	var nameOK, typeOK []target // requests whose focus is inline (C01)
 	for _, k := range keys {
 		i := firstByKey(l, k)
+		if l[i].Name == "_" {
+			continue // no selector reaches a blank field: no ground truth for a lens on it
+		}
 		api := rapid.SampledFrom([]string{"product", "spectrum"}).Draw(t, "api")
 		if l[i].ViaPointer {
 			reqs = append(reqs, Request{Prop: "C02", API: api, N: 1, ByName: true, Names: []string{k}, Types: []string{l[i].Type}, Expect: "panicOrCorrect", Foci: []int{i}, Why: "focus lies behind an embedded pointer", NT: true, Classes: []string{"behind-pointer"}})
@@ -264,6 +270,9 @@ func GenRequests(t *rapid.T, sh *Shape) []Request {
 	}
 	for _, ty := range types {
 		i := firstByType(l, ty)
+		if l[i].Name == "_" {
+			continue
+		}
 		api := rapid.SampledFrom([]string{"product", "spectrum"}).Draw(t, "api")
 		if l[i].ViaPointer {
 			reqs = append(reqs, Request{Prop: "C02", API: api, N: 1, Types: []string{ty}, Expect: "panicOrCorrect", Foci: []int{i}, Why: "first field of that type lies behind an embedded pointer", NT: true, Classes: []string{"behind-pointer"}})
